@@ -78,7 +78,12 @@ type recStore struct {
 	inner bep44.Store
 	puts  int
 	dels  int
+	// failGets: this many of the next Get calls fail with a plain (non-KRPC, not not-found) error
+	failGets int
 }
+
+// FailNextGets arms (n > 0) or disarms (n = 0) read failures of the backend.
+func (r *recStore) FailNextGets(n int) { r.mu.Lock(); r.failGets = n; r.mu.Unlock() }
 
 func (r *recStore) Put(i *bep44.Item) error {
 	r.mu.Lock()
@@ -86,7 +91,18 @@ func (r *recStore) Put(i *bep44.Item) error {
 	r.mu.Unlock()
 	return r.inner.Put(i)
 }
-func (r *recStore) Get(t bep44.Target) (*bep44.Item, error) { return r.inner.Get(t) }
+func (r *recStore) Get(t bep44.Target) (*bep44.Item, error) {
+	r.mu.Lock()
+	fail := r.failGets > 0
+	if fail {
+		r.failGets--
+	}
+	r.mu.Unlock()
+	if fail {
+		return nil, errors.New("simulated storage read failure")
+	}
+	return r.inner.Get(t)
+}
 
 // faultyStore is a bep44.Store of the kind ServerConfig.Store admits: a backend that can fail. Get and
 // Put fail for targets / items selected by the scenario, with a plain error or a KRPC error.
